@@ -114,8 +114,6 @@ func c33Servers() {
 		os.Setenv("AWS_REGION", "us-east-1")
 		os.Setenv("AWS_EC2_METADATA_DISABLED", "true")
 		os.Setenv("STORAGE_EMULATOR_HOST", strings.TrimPrefix(c33GCSrv.URL, "http://"))
-		// the signed-URL step looks for credentials; make the metadata-server probe fail at once
-		os.Setenv("GCE_METADATA_HOST", "127.0.0.1:1")
 	})
 }
 
@@ -316,11 +314,12 @@ func c33Gen(g *Gen) {
 		}
 		g.Case(ls...)
 	}
-	for i := 0; i < g.N(6, 40); i++ {
+	// (each GCS upload allocates the client library's 16 MiB media buffer: kept few in the quick tier)
+	for i := 0; i < g.N(4, 40); i++ {
 		p := Pick(r, prefixes)
 		var ls []string
-		for k := 0; k < r.Range(1, 3); k++ {
-			ls = append(ls, fmt.Sprintf("gcs n=%d workers=%d prefix=%s enc=%s", r.Range(30, 100), Pick(r, []int{1, 1, 4, 8}), hex.EncodeToString([]byte(p)), Pick(r, []string{"none", "zstd"})))
+		for k := 0; k < r.Range(1, g.N(1, 3)); k++ {
+			ls = append(ls, fmt.Sprintf("gcs n=%d workers=%d prefix=%s enc=%s", r.Range(16, g.N(40, 150)), Pick(r, []int{1, 1, 4, 8}), hex.EncodeToString([]byte(p)), Pick(r, []string{"none", "zstd"})))
 		}
 		g.Case(ls...)
 	}
